@@ -25,6 +25,7 @@ DRIVERS = {
     'rt_spans': ['bb_query', 'bw_roundtrip'], 'tree_offsets': ['bw_roundtrip', 'bb_query'], 'cache': ['bw_roundtrip', 'bb_query'],
     'iters': ['bw_roundtrip', 'bb_query'], 'query_glue': ['bw_roundtrip', 'bb_query'], 'index': ['indexer'],
     'sum_acc': ['bb_summary', 'bb_summary2'], 'summary_io': ['bb_summary', 'bw_roundtrip'],
+    'compat': ['compat'],
 }
 
 
